@@ -3,6 +3,7 @@
 From RJ Require Import Base.Outcome Base.F64 Model.Token Model.Ast Model.RefCore Model.RefValue Model.RefEval.
 From RJ Require Import Proofs.RefSem_proofs Proofs.RefSem_laws Proofs.RefSem_params.
 From RJ Require Import Model.Analyze Proofs.RefScope_defs Proofs.RefScope_main Proofs.RefScope_static.
+From RJ Require Import Proofs.RefInherit_proofs Proofs.RefNeed_proofs.
 Local Open Scope N_scope.
 
 (* ---- the interpreter is a function; more fuel / a larger stack limit never change a verdict ---- *)
@@ -145,6 +146,75 @@ Theorem C02_refeval_no_static_error : forall e, StaticOK [s_std] false e ->
   forall fuel c, ~ static_error (run fuel c e).
 Proof. exact refeval_no_static_error. Qed.
 
+(* ---- inheritance laws (C07) over this evaluator ---- *)
+Theorem C02_plus_assoc : forall f c en a b c0 d ta tb tc la lb lc ca cb cc,
+  run_task f c (TEval en a) d = (ta, Ok (AVal (VObj la ca))) ->
+  run_task f c (TEval en b) d = (tb, Ok (AVal (VObj lb cb))) ->
+  run_task f c (TEval en c0) d = (tc, Ok (AVal (VObj lc cc))) ->
+  run_task (S (S f)) c (TEval en (CBin BAdd (CBin BAdd a b) c0)) d = (ta ++ tb ++ tc, Ok (AVal (VObj (lc ++ lb ++ la) false)))
+  /\ run_task (S (S f)) c (TEval en (CBin BAdd a (CBin BAdd b c0))) d = (ta ++ tb ++ tc, Ok (AVal (VObj (lc ++ lb ++ la) false))).
+Proof. exact plus_assoc. Qed.
+
+Theorem C02_plus_empty_l : forall e lo, l_fields e = [] ->
+  (forall from n, from <= lenN lo -> find_field (lo ++ [e]) from n = find_field lo from n) /\
+  (forall from n, from <= lenN lo -> has_field (lo ++ [e]) from n = has_field lo from n) /\
+  (forall n, RefValue.field_vis (lo ++ [e]) n = RefValue.field_vis lo n) /\
+  (forall n, is_visible (lo ++ [e]) n = is_visible lo n) /\
+  all_names (lo ++ [e]) = all_names lo /\
+  visible_names (lo ++ [e]) = visible_names lo.
+Proof. exact plus_empty_l. Qed.
+
+Theorem C02_plus_empty_r : forall e lo, l_fields e = [] ->
+  (forall n, find_field (e :: lo) 0 n = option_map (shift 1) (find_field lo 0 n)) /\
+  (forall n, has_field (e :: lo) 0 n = has_field lo 0 n) /\
+  (forall n, RefValue.field_vis (e :: lo) n = RefValue.field_vis lo n) /\
+  (forall n, is_visible (e :: lo) n = is_visible lo n) /\
+  all_names (e :: lo) = all_names lo /\
+  visible_names (e :: lo) = visible_names lo.
+Proof. exact plus_empty_r. Qed.
+
+Theorem C02_override_wins : forall la lb n, has_field lb 0 n = true -> find_field (lb ++ la) 0 n = find_field lb 0 n.
+Proof. exact override_wins. Qed.
+
+Theorem C02_inherited_field : forall la lb n, has_field lb 0 n = false ->
+  find_field (lb ++ la) 0 n = option_map (shift (lenN lb)) (find_field la 0 n).
+Proof. exact inherited_field. Qed.
+
+Theorem C02_self_field_is_top_lookup : forall f c en ls i g d t o,
+  lookup_obj en = Some (ls, i, true) -> fits c d -> has_field ls 0 g = true ->
+  run_task (S f) c (TField ls 0 g) (d + 1) = (t, o) ->
+  (forall v, o = Ok (AVal v) -> run_task (S (S f)) c (TEval en (CField CSelf g)) d = (t, Ok (AVal v))) /\
+  (forall e, o = Err e -> run_task (S (S f)) c (TEval en (CField CSelf g)) d = (t, Err e)).
+Proof. exact self_field_is_top_lookup. Qed.
+
+Theorem C02_self_is_final : forall f c la lb i l fld g d t o,
+  fits c d -> has_field lb 0 g = true ->
+  run_task (S f) c (TField (lb ++ la) 0 g) (d + 1) = (t, o) ->
+  find_field (lb ++ la) 0 g = find_field lb 0 g /\
+  (forall v, o = Ok (AVal v) ->
+     run_task (S (S f)) c (TEval (field_env (lb ++ la) i l fld) (CField CSelf g)) d = (t, Ok (AVal v))) /\
+  (forall e, o = Err e ->
+     run_task (S (S f)) c (TEval (field_env (lb ++ la) i l fld) (CField CSelf g)) d = (t, Err e)).
+Proof. exact self_is_final. Qed.
+
+(* ---- call-by-need rewrite laws (C04) over this evaluator ---- *)
+Theorem C02_rw_array_proj : forall f c en e d t o,
+  fits c d -> run_task f c (TEval en e) (d + 1) = (t, o) -> passes o ->
+  run_task (S (S f)) c (TEval en (CIndex (CArray [e]) (CNum f_zero))) d = (t, o).
+Proof. exact rw_array_proj. Qed.
+
+Theorem C02_rw_identity : forall f c en x e tl d t o,
+  fits c d -> fits c (d + 1) -> run_task f c (TEval en e) (d + 1 + 1) = (t, o) -> passes o ->
+  run_task (S (S (S (S f)))) c (TEval en (CCall (CFunc [(x, None)] (CVar x)) [e] [] false tl)) d = (t, o).
+Proof. exact rw_identity. Qed.
+
+(* local x = e; x  is  e  in the environment extended by that very binding (the step from there
+   to the bare environment, for x not free in e, is the coincidence goal) *)
+Theorem C02_rw_local_name : forall f c en x e d t o,
+  fits c d -> run_task f c (TEval (FVars [] [(x, e)] :: en) e) (d + 1) = (t, o) -> passes o ->
+  run_task (S (S (S f))) c (TEval en (CLocal [(x, e)] (CVar x))) d = (t, o).
+Proof. exact rw_local_name. Qed.
+
 (* ---- not proved (kept as goals): the two documented deviations of the implementation can only
         change WHICH error is reported, or turn an error into a value — never a value ---- *)
 Definition C02_goal_comprehension_order : Prop := forall fuel lim ts e t j,
@@ -213,6 +283,18 @@ Proof.
   - eexists. reflexivity.
 Qed.
 
+Example C02_laws_nonvacuous :
+  run_task 5 cfg0 (TEval init_env (CObject [] [] [])) 0 = ([], Ok (AVal (VObj [MkLayer [] [] [] init_env false] false)))
+  /\ passes (Ok (AVal VNull)) /\ passes (Err (EExplicit [97])) /\ fits cfg0 0 /\ fits cfg0 (0 + 1)
+  /\ run_task 5 cfg0 (TEval init_env (CNum (f_of_Z 1))) (0 + 1) = ([], Ok (AVal (VNum (f_of_Z 1))))
+  /\ has_field [MkLayer [] [] [([103], MkField VisDefault false CNull None)] [] false] 0 [103] = true
+  /\ l_fields (MkLayer [] [] [] init_env false) = [].
+Proof.
+  repeat split; try (vm_compute; reflexivity).
+  - left. eexists. reflexivity.
+  - right. eexists. reflexivity.
+Qed.
+
 Print Assumptions C02_refsem_deterministic.
 Print Assumptions C02_fuel_monotone.
 Print Assumptions C02_limit_monotone.
@@ -241,3 +323,14 @@ Print Assumptions C02_core_no_static_error.
 Print Assumptions C02_static_ok_closed.
 Print Assumptions C02_refeval_no_static_error.
 Print Assumptions C02_static_nonvacuous.
+Print Assumptions C02_plus_assoc.
+Print Assumptions C02_plus_empty_l.
+Print Assumptions C02_plus_empty_r.
+Print Assumptions C02_override_wins.
+Print Assumptions C02_inherited_field.
+Print Assumptions C02_self_field_is_top_lookup.
+Print Assumptions C02_self_is_final.
+Print Assumptions C02_rw_array_proj.
+Print Assumptions C02_rw_identity.
+Print Assumptions C02_rw_local_name.
+Print Assumptions C02_laws_nonvacuous.
